@@ -65,6 +65,23 @@ func scenarios(indexed bool) []*eng.Scenario {
 				{ins("a", doc(u3, "x", int64(3)))},
 				{{K: "count", Q: all}, {K: "findAll", Q: all}},
 			}},
+		{Name: "S9-two-deleters-same-id" + suffix, Setup: with(ins("a", doc(u1, "x", int64(1)), doc(u2, "x", int64(2)), doc(u3, "x", int64(1)))),
+			Threads: [][]m.Op{
+				{{K: "deleteById", Coll: "a", Id: u1}},
+				{{K: "deleteById", Coll: "a", Id: u1}, {K: "count", Q: all}},
+				{{K: "delete", Q: qOn("a", x(1))}, {K: "count", Q: all}},
+			}},
+		{Name: "S10-updaters-same-doc" + suffix, Setup: with(ins("a", doc(u1, "x", int64(1), "n", int64(0)), doc(u2, "x", int64(2), "n", int64(0)))),
+			Threads: [][]m.Op{
+				{updID("a", u1, "copy", "x", int64(5))},
+				{{K: "replaceById", Coll: "a", Id: u1, Docs: []m.Doc{doc(u1, "x", int64(6), "n", int64(1))}}},
+				{{K: "update", Q: qOn("a", m.Leaf("gte", "x", int64(1))), Set: setMap("n", int64(7))}, {K: "findAll", Q: qOn("a", m.Leaf("gte", "x", int64(5)))}},
+			}},
+		{Name: "S11-large-batch-vs-count" + suffix, Setup: with(ins("a", doc(u1, "x", int64(1)))),
+			Threads: [][]m.Op{
+				{ins("a", manyDocs(1100)...)},
+				{{K: "count", Q: all}, {K: "count", Q: qOn("a", m.Leaf("gte", "x", int64(0)))}},
+			}},
 		{Name: "S8-drop-index-vs-indexed-update" + suffix, Setup: with(ins("a", doc(u1, "x", int64(1)), doc(u2, "x", int64(2)))),
 			Threads: [][]m.Op{
 				{{K: "dropIndex", Coll: "a", Field: "x"}},
@@ -121,10 +138,18 @@ func tail(s string, n int) string {
 	return s
 }
 
+func manyDocs(n int) []m.Doc {
+	out := make([]m.Doc, n)
+	for i := range out {
+		out[i] = doc(eng.ID(1000+i), "x", int64(i%9))
+	}
+	return out
+}
+
 func init() {
 	register("C07", "model_checking", func(run *ev.Run, tier string) string {
 		tags := own("nonlinearizable", "deadlock", "rawkeys", "count", "indexquery", "id", "panic", "leak", "final", "harness")
-		nScen := 8
+		nScen := 11
 		for _, indexed := range []bool{false, true} {
 			for i, sc := range scenarios(indexed) {
 				if i >= nScen {
@@ -135,7 +160,7 @@ func init() {
 					if tier == "thorough" {
 						eng.SchedExplore(&eng.SchedConfig{Scenario: sc, Backend: b, Mode: eng.ModeTxPoints, Bound: 4, Budget: 5 * time.Minute, Own: tags}, run)
 						eng.SchedExplore(&eng.SchedConfig{Scenario: sc, Backend: b, Mode: eng.ModeEveryCall, Bound: 3, Budget: 5 * time.Minute, Own: tags}, run)
-					} else {
+					} else if !strings.HasPrefix(sc.Name, "S11") { // thousands of store calls per schedule: op+commit mode only in the quick tier
 						eng.SchedExplore(&eng.SchedConfig{Scenario: sc, Backend: b, Mode: eng.ModeEveryCall, Bound: 1, Budget: 60 * time.Second, Own: tags}, run)
 					}
 				}
